@@ -28,7 +28,7 @@ use std::pin::Pin;
 use std::rc::Rc;
 use std::task::{Context, Poll, Waker};
 use yash_executor::forwarder::{Receiver, TryReceiveError};
-use yash_executor::{Executor, Spawner};
+use yash_executor::{Executor, SpawnError, Spawner};
 use yverif::proto::{Opts, emit, guarded, quiet_panics};
 use yverif::rng::Rng;
 
@@ -144,6 +144,11 @@ struct World {
     done_order: Vec<usize>,
     poll_log: Vec<(usize, bool)>,
     fails: Vec<String>,
+    /// ids of the tasks whose future has been dropped (kept outside the `World` cell: a future can be
+    /// dropped while the world is borrowed)
+    drops: Rc<RefCell<Vec<usize>>>,
+    /// inside `run_until_stalled`: the harness cannot count steps, so the FIFO position is not checked
+    batch: bool,
 }
 
 impl World {
@@ -163,6 +168,13 @@ impl World {
     }
     /// Bookkeeping for one wake-up (or spawn) of `target`, given `wake_count` before and after.
     fn note_enqueue(&mut self, target: usize, before: usize, after: usize, what: &str) {
+        if self.batch {
+            // inside `run_until_stalled` the harness sees neither the pops nor the wake-ups sent by relays
+            if after != before && after != before + 1 {
+                self.fail(format!("queue-jump:{what}{target}"));
+            }
+            return;
+        }
         if self.due.contains_key(&target) {
             if after != before {
                 self.fail(format!("queued-twice:{what}{target}@{}", self.step_no));
@@ -198,6 +210,21 @@ impl World {
 struct ScriptTask {
     tid: usize,
     w: Rc<RefCell<World>>,
+    drops: Rc<RefCell<Vec<usize>>>,
+}
+
+impl ScriptTask {
+    fn new(tid: usize, w: &Rc<RefCell<World>>, drops: &Rc<RefCell<Vec<usize>>>) -> Self {
+        ScriptTask { tid, w: Rc::clone(w), drops: Rc::clone(drops) }
+    }
+}
+
+impl Drop for ScriptTask {
+    fn drop(&mut self) {
+        if self.tid != usize::MAX {
+            self.drops.borrow_mut().push(self.tid);
+        }
+    }
 }
 
 impl Future for ScriptTask {
@@ -216,6 +243,7 @@ impl Future for ScriptTask {
             w.fail(format!("poll-after-complete:{tid}@{}", w.step_no));
         }
         match w.due.remove(&tid) {
+            _ if w.batch => {}
             Some(n) if n == w.step_no => {}
             Some(n) => {
                 let s = w.step_no;
@@ -269,7 +297,7 @@ impl Future for ScriptTask {
                     if w.spawned < w.scripts.len() {
                         let before = w.wake_count();
                         let child = w.new_task();
-                        let fut = ScriptTask { tid: child, w: Rc::clone(&self.w) };
+                        let fut = ScriptTask::new(child, &self.w, &self.drops);
                         match unsafe { w.spawner.spawn(fut) } {
                             Ok(rx) => w.receivers[child] = Some(rx),
                             Err(_) => w.fail(format!("spawn-refused:{child}")),
@@ -343,12 +371,15 @@ fn build(case: &Case) -> (Executor<'static>, Rc<RefCell<World>>) {
         done_order: vec![],
         poll_log: vec![],
         fails: vec![],
+        drops: Rc::new(RefCell::new(vec![])),
+        batch: false,
     }));
+    let drops = Rc::clone(&world.borrow().drops);
     for _ in 0..case.roots.min(case.scripts.len()) {
         let mut w = world.borrow_mut();
         let before = w.wake_count();
         let tid = w.new_task();
-        let rx = unsafe { exec.spawn(ScriptTask { tid, w: Rc::clone(&world) }) };
+        let rx = unsafe { exec.spawn(ScriptTask::new(tid, &world, &drops)) };
         w.receivers[tid] = Some(rx);
         let after = w.wake_count();
         w.note_enqueue(tid, before, after, "root");
@@ -391,63 +422,76 @@ fn genuinely_waiting(w: &World, t: usize) -> bool {
     }
 }
 
+/// One `Executor::step` with the bookkeeping of the oracle; `None` = the queue was empty.
+fn do_step(exec: &Executor<'static>, world: &Rc<RefCell<World>>) -> Option<(String, bool)> {
+    {
+        let mut w = world.borrow_mut();
+        w.step_no += 1;
+        w.polled = None;
+    }
+    let r = exec.step();
+    let mut w = world.borrow_mut();
+    let wc = exec.wake_count();
+    let n = w.step_no;
+    let Some(b) = r else {
+        w.step_no -= 1;
+        return None;
+    };
+    let tok = match w.polled {
+        Some((tid, ready)) => {
+            if ready != b {
+                w.fail(format!("step-result:{tid}@{n}"));
+            }
+            if ready {
+                // the wrapper future has sent the value: a task awaiting it has been woken
+                if let Some(p) = w.awaiting[tid] {
+                    if w.finished[p].is_none() && !w.due.contains_key(&p) {
+                        w.due.insert(p, n + wc);
+                    }
+                }
+            }
+            format!("{tid}{}{wc}", if ready { "r" } else { "p" })
+        }
+        None => {
+            // no future was polled: the popped task must be a finished one that was woken
+            let who: Vec<usize> = w.due.iter().filter(|(_, d)| **d == n).map(|(t, _)| *t).collect();
+            match who.as_slice() {
+                [t] if w.finished[*t].is_some() => {
+                    let t = *t;
+                    w.due.remove(&t);
+                    if !b {
+                        w.fail(format!("noop-poll-not-complete:{t}@{n}"));
+                    }
+                }
+                _ => w.fail(format!("step-polled-nothing@{n}")),
+            }
+            format!("~{wc}")
+        }
+    };
+    if wc != w.due.len() {
+        let d = w.due.len();
+        w.fail(format!("queue-size:{wc}-expected:{d}@{n}"));
+    }
+    Some((tok, b))
+}
+
 fn run_case(case: &Case) -> (String, String) {
     let (exec, world) = build(case);
     let mut toks: Vec<String> = vec![];
     let mut compl = 0usize;
     let mut stalled = false;
     for _ in 0..MAX_STEPS {
-        {
-            let mut w = world.borrow_mut();
-            w.step_no += 1;
-            w.polled = None;
-        }
-        let r = exec.step();
-        let mut w = world.borrow_mut();
-        let wc = exec.wake_count();
-        let n = w.step_no;
-        let Some(b) = r else {
-            w.step_no -= 1;
-            stalled = true;
-            break;
-        };
-        if b {
-            compl += 1;
-        }
-        match w.polled {
-            Some((tid, ready)) => {
-                if ready != b {
-                    w.fail(format!("step-result:{tid}@{n}"));
-                }
-                toks.push(format!("{tid}{}{wc}", if ready { "r" } else { "p" }));
-                if ready {
-                    // the wrapper future has sent the value: a task awaiting it has been woken
-                    if let Some(p) = w.awaiting[tid] {
-                        if w.finished[p].is_none() && !w.due.contains_key(&p) {
-                            w.due.insert(p, n + wc);
-                        }
-                    }
-                }
-            }
+        match do_step(&exec, &world) {
             None => {
-                // no future was polled: the popped task must be a finished one that was woken
-                let who: Vec<usize> = w.due.iter().filter(|(_, d)| **d == n).map(|(t, _)| *t).collect();
-                match who.as_slice() {
-                    [t] if w.finished[*t].is_some() => {
-                        let t = *t;
-                        w.due.remove(&t);
-                        if !b {
-                            w.fail(format!("noop-poll-not-complete:{t}@{n}"));
-                        }
-                    }
-                    _ => w.fail(format!("step-polled-nothing@{n}")),
-                }
-                toks.push(format!("~{wc}"));
+                stalled = true;
+                break;
             }
-        }
-        if wc != w.due.len() {
-            let d = w.due.len();
-            w.fail(format!("queue-size:{wc}-expected:{d}@{n}"));
+            Some((tok, b)) => {
+                toks.push(tok);
+                if b {
+                    compl += 1;
+                }
+            }
         }
     }
     // ---- at the end of the run
@@ -508,9 +552,17 @@ fn run_case(case: &Case) -> (String, String) {
         .collect();
     let done: Vec<String> = w.done_order.iter().map(|t| t.to_string()).collect();
     let first_log = w.poll_log.clone();
+    let (spawned, drops) = (w.spawned, Rc::clone(&w.drops));
     drop(w);
     teardown(&world);
     drop(exec);
+    // every reference to every task is gone now: each future must have been dropped exactly once
+    for t in 0..spawned {
+        let n = drops.borrow().iter().filter(|x| **x == t).count();
+        if n != 1 {
+            world.borrow_mut().fail(format!("task-{}:{t}", if n == 0 { "leaked" } else { "dropped-twice" }));
+        }
+    }
 
     // ---- the same system once more through `run_until_stalled`
     let rus = if stalled {
@@ -542,6 +594,409 @@ fn run_case(case: &Case) -> (String, String) {
     let w = world.borrow();
     let oracle = if w.fails.is_empty() { "ok".to_string() } else { format!("FAIL:{}", w.fails.join(";")) };
     (obs, oracle)
+}
+
+// ------------------------------------------------------------------------------------------------
+// `v` cases: a task system driven from outside by a list of operations on the executor and on the
+// wakers the tasks have registered with the channels
+
+#[derive(Clone, Copy, PartialEq, Eq, Debug)]
+enum Op {
+    /// `s`: `Executor::step`
+    Step,
+    /// `u`: `Executor::run_until_stalled`
+    Rus,
+    /// `w<k>.<i>`: take the i-th waker registered with channel k and `wake()` it
+    Wake(usize, usize),
+    /// `r<k>.<i>`: `wake_by_ref()` on it
+    ByRef(usize, usize),
+    /// `c<k>.<i>`: `clone()` it and register the clone with channel k as well
+    Clone(usize, usize),
+    /// `d<k>.<i>`: take it and drop it
+    Drop(usize, usize),
+    /// `S<k>`: signal channel k from outside
+    Signal(usize),
+    /// `X`: drop the executor
+    DropExec,
+    /// `t<c>`: `try_receive` on the receiver of task c
+    Try(usize),
+    /// `p`: `Spawner::spawn` the next unspawned script from outside
+    Spawn,
+}
+
+fn parse_op(t: &str) -> Option<Op> {
+    let pair = |r: &str| -> Option<(usize, usize)> {
+        let (a, b) = r.split_once('.')?;
+        Some((a.parse().ok()?, b.parse().ok()?))
+    };
+    let (h, r) = t.split_at(1);
+    Some(match (h, r) {
+        ("s", "") => Op::Step,
+        ("u", "") => Op::Rus,
+        ("X", "") => Op::DropExec,
+        ("p", "") => Op::Spawn,
+        ("w", r) => pair(r).map(|(k, i)| Op::Wake(k, i))?,
+        ("r", r) => pair(r).map(|(k, i)| Op::ByRef(k, i))?,
+        ("c", r) => pair(r).map(|(k, i)| Op::Clone(k, i))?,
+        ("d", r) => pair(r).map(|(k, i)| Op::Drop(k, i))?,
+        ("S", r) => Op::Signal(r.parse().ok()?),
+        ("t", r) => Op::Try(r.parse().ok()?),
+        _ => return None,
+    })
+}
+
+fn show_op(o: Op) -> String {
+    match o {
+        Op::Step => "s".into(),
+        Op::Rus => "u".into(),
+        Op::Wake(k, i) => format!("w{k}.{i}"),
+        Op::ByRef(k, i) => format!("r{k}.{i}"),
+        Op::Clone(k, i) => format!("c{k}.{i}"),
+        Op::Drop(k, i) => format!("d{k}.{i}"),
+        Op::Signal(k) => format!("S{k}"),
+        Op::DropExec => "X".into(),
+        Op::Try(c) => format!("t{c}"),
+        Op::Spawn => "p".into(),
+    }
+}
+
+fn run_ops(case: &Case, ops: &[Op]) -> (String, String) {
+    let (exec, world) = build(case);
+    let mut exec = Some(exec);
+    let drops = Rc::clone(&world.borrow().drops);
+    let mut toks: Vec<String> = vec![];
+    // a waker was dropped or the executor is gone: tasks may have been abandoned on purpose
+    let mut abandoned = false;
+    let mut lost_all: Vec<usize> = vec![];
+    let mut dropped_seen: Vec<usize> = vec![];
+    let wc_str = |e: &Option<Executor<'static>>| e.as_ref().map(|e| e.wake_count().to_string()).unwrap_or_else(|| "x".into());
+    for op in ops {
+        let mut tok = match *op {
+            Op::Step => match &exec {
+                None => "s:x".to_string(),
+                Some(e) => match do_step(e, &world) {
+                    None => "s:-".to_string(),
+                    Some((t, _)) => t,
+                },
+            },
+            Op::Rus => match &exec {
+                None => "u:x".to_string(),
+                Some(e) => {
+                    let from = world.borrow().poll_log.len();
+                    world.borrow_mut().batch = true;
+                    let n = e.run_until_stalled();
+                    let mut w = world.borrow_mut();
+                    w.batch = false;
+                    let polls: Vec<String> =
+                        w.poll_log[from..].iter().map(|(t, r)| format!("{t}{}", if *r { "r" } else { "p" })).collect();
+                    let ready = w.poll_log[from..].iter().filter(|(_, r)| *r).count();
+                    // everything that had been woken has been popped
+                    w.due.clear();
+                    if n < ready {
+                        w.fail(format!("run_until_stalled-count:{n}-ready:{ready}"));
+                    }
+                    if e.wake_count() != 0 {
+                        w.fail("run_until_stalled-left-queue".into());
+                    }
+                    format!("u{n}[{}]", polls.join(","))
+                }
+            },
+            Op::Wake(k, i) | Op::ByRef(k, i) | Op::Clone(k, i) | Op::Drop(k, i) => {
+                let mut w = world.borrow_mut();
+                w.chan(k);
+                if i >= w.waiters[k].len() {
+                    ".".to_string()
+                } else {
+                    let alive = exec.is_some();
+                    match *op {
+                        Op::Wake(..) => {
+                            let (t, wk) = w.waiters[k].remove(i);
+                            if alive {
+                                w.wake_with(t, || wk.wake());
+                            } else {
+                                wk.wake();
+                            }
+                        }
+                        Op::ByRef(..) => {
+                            let (t, wk) = w.waiters[k][i].clone();
+                            if alive {
+                                w.wake_with(t, || wk.wake_by_ref());
+                            } else {
+                                wk.wake_by_ref();
+                            }
+                        }
+                        Op::Clone(..) => {
+                            let (t, wk) = &w.waiters[k][i];
+                            let c = (*t, wk.clone());
+                            w.waiters[k].push(c);
+                        }
+                        _ => {
+                            abandoned = true;
+                            let e = w.waiters[k].remove(i);
+                            drop(w);
+                            drop(e);
+                        }
+                    }
+                    wc_str(&exec)
+                }
+            }
+            Op::Signal(k) => {
+                let mut w = world.borrow_mut();
+                w.chan(k);
+                w.tokens[k] += 1;
+                let sticky = w.sticky;
+                let ws: Vec<(usize, Waker)> =
+                    if sticky { w.waiters[k].clone() } else { std::mem::take(&mut w.waiters[k]) };
+                let alive = exec.is_some();
+                for (t, wk) in ws {
+                    match (alive, sticky) {
+                        (true, true) => w.wake_with(t, || wk.wake_by_ref()),
+                        (true, false) => w.wake_with(t, || wk.wake()),
+                        (false, true) => wk.wake_by_ref(),
+                        (false, false) => wk.wake(),
+                    }
+                }
+                wc_str(&exec)
+            }
+            Op::DropExec => {
+                abandoned = true;
+                let e1 = exec.take();
+                let e2 = {
+                    let mut w = world.borrow_mut();
+                    w.due.clear();
+                    w.exec.take()
+                };
+                drop(e1);
+                drop(e2);
+                "X".to_string()
+            }
+            Op::Try(c) => {
+                let mut w = world.borrow_mut();
+                // (a receiver its parent will still await is left alone: polling a receiver after
+                // `try_receive` took the value is a contract violation that panics by design)
+                if c >= w.spawned || w.kids.iter().any(|k| k.contains(&c)) {
+                    ".".to_string()
+                } else {
+                    let r = w.receivers[c].as_ref().expect("receiver present").try_receive();
+                    if let Ok(v) = r {
+                        w.deliveries[c].push(v);
+                    }
+                    format!("t:{}", show_try(&r))
+                }
+            }
+            Op::Spawn => {
+                let mut w = world.borrow_mut();
+                if w.spawned >= w.scripts.len() {
+                    ".".to_string()
+                } else {
+                    let before = w.wake_count();
+                    let tid = w.spawned;
+                    let fut = ScriptTask::new(tid, &world, &drops);
+                    match unsafe { w.spawner.spawn(fut) } {
+                        Ok(rx) => {
+                            if exec.is_none() {
+                                w.fail("spawned-on-dropped-executor".into());
+                            }
+                            let t = w.new_task();
+                            w.receivers[t] = Some(rx);
+                            let after = w.wake_count();
+                            w.note_enqueue(t, before, after, "spawn");
+                            format!("p:{after}")
+                        }
+                        Err(SpawnError(mut fut)) => {
+                            if exec.is_some() {
+                                w.fail("spawn-refused-by-live-executor".into());
+                            }
+                            fut.tid = usize::MAX;
+                            "p:refused".to_string()
+                        }
+                    }
+                }
+            }
+        };
+        // futures dropped before they finished: tasks nothing refers to any more
+        let w = world.borrow();
+        let drained: Vec<usize> = drops.borrow_mut().drain(..).collect();
+        dropped_seen.extend(drained.iter().copied());
+        let mut lost: Vec<usize> = drained.into_iter().filter(|t| w.finished[*t].is_none()).collect();
+        lost.sort();
+        if !lost.is_empty() {
+            tok.push('!');
+            tok.push_str(&lost.iter().map(|t| t.to_string()).collect::<Vec<_>>().join("."));
+            if !abandoned {
+                drop(w);
+                world.borrow_mut().fail(format!("task-lost:{lost:?}"));
+            }
+            lost_all.extend(lost);
+        }
+        toks.push(tok);
+    }
+    // ---- at the end
+    let mut w = world.borrow_mut();
+    if let Some(e) = &exec {
+        if e.wake_count() == 0 && !abandoned {
+            for t in 0..w.spawned {
+                if w.finished[t].is_none() && !genuinely_waiting(&w, t) {
+                    w.fail(format!("stalled-not-waiting:{t}"));
+                }
+            }
+        }
+    }
+    let mut recv = vec![];
+    for c in 0..w.spawned {
+        let rx = w.receivers[c].take().expect("receiver present");
+        let r1 = rx.try_receive();
+        let r2 = rx.try_receive();
+        for r in [&r1, &r2] {
+            if let Ok(v) = r {
+                w.deliveries[c].push(*v);
+            }
+        }
+        match w.finished[c] {
+            Some(v) => {
+                if w.deliveries[c] != [v] {
+                    let d = format!("{:?}", w.deliveries[c]);
+                    w.fail(format!("delivery:{c}-returned:{v}-delivered:{d}"));
+                }
+                if r2 != Err(TryReceiveError::AlreadyReceived) {
+                    w.fail(format!("not-already-received:{c}"));
+                }
+            }
+            None => {
+                let expect = if lost_all.contains(&c) { TryReceiveError::SenderDropped } else { TryReceiveError::NotSent };
+                if !w.deliveries[c].is_empty() || r1 != Err(expect) || r2 != Err(expect) {
+                    w.fail(format!("unfinished-receiver:{c}:{}", show_try(&r1)));
+                }
+            }
+        }
+        recv.push(format!("{c}:{}/{}", show_try(&r1), show_try(&r2)));
+        w.receivers[c] = Some(rx);
+    }
+    let done: Vec<String> = w.done_order.iter().map(|t| t.to_string()).collect();
+    let obs = format!(
+        "{} | done={} wc={} recv={}",
+        toks.join(" "),
+        if done.is_empty() { "-".into() } else { done.join(".") },
+        wc_str(&exec),
+        recv.join(",")
+    );
+    let spawned = w.spawned;
+    drop(w);
+    teardown(&world);
+    drop(exec);
+    dropped_seen.extend(drops.borrow_mut().drain(..));
+    for t in 0..spawned {
+        let n = dropped_seen.iter().filter(|x| **x == t).count();
+        if n != 1 {
+            world.borrow_mut().fail(format!("task-{}:{t}", if n == 0 { "leaked" } else { "dropped-twice" }));
+        }
+    }
+    let w = world.borrow();
+    let oracle = if w.fails.is_empty() { "ok".to_string() } else { format!("FAIL:{}", w.fails.join(";")) };
+    (obs, oracle)
+}
+
+fn parse_ops_case(line: &str) -> Option<(Case, Vec<Op>)> {
+    let (sys, ops) = line.split_once(';')?;
+    let case = parse_case(sys)?;
+    let ops: Option<Vec<Op>> = ops.split_whitespace().map(parse_op).collect();
+    Some((case, ops?))
+}
+
+// ------------------------------------------------------------------------------------------------
+// `f` cases: the forwarder alone, every order of send / receive / drop, two different wakers
+
+struct CountWake(std::sync::atomic::AtomicUsize);
+
+impl std::task::Wake for CountWake {
+    fn wake(self: std::sync::Arc<Self>) {
+        self.0.fetch_add(1, std::sync::atomic::Ordering::SeqCst);
+    }
+}
+
+/// Ops: `send` (value 7), `ds`/`dr` (drop sender / receiver), `try`, `pa`/`pb` (poll the receiver with
+/// waker a / b).  Observation: one token per op, then how often each waker was woken and how many
+/// clones of each are still held by the relay.
+fn run_forwarder(ops: &[&str]) -> (String, String) {
+    use std::sync::Arc;
+    use std::sync::atomic::Ordering;
+    let (tx, rx) = yash_executor::forwarder::forwarder::<u64>();
+    let (mut tx, mut rx) = (Some(tx), Some(rx));
+    let counters = [Arc::new(CountWake(0.into())), Arc::new(CountWake(0.into()))];
+    let wakers = [Waker::from(Arc::clone(&counters[0])), Waker::from(Arc::clone(&counters[1]))];
+    let mut toks = vec![];
+    let mut fails: Vec<String> = vec![];
+    let mut got: Vec<u64> = vec![];
+    let mut sent = false;
+    for op in ops {
+        let tok = match *op {
+            "send" => match tx.take() {
+                None => ".".to_string(),
+                Some(t) => match t.send(7) {
+                    Ok(()) => {
+                        if rx.is_none() {
+                            fails.push("send-ok-without-receiver".into());
+                        }
+                        sent = true;
+                        "ok".into()
+                    }
+                    Err(v) => {
+                        if rx.is_some() || v != 7 {
+                            fails.push("send-refused".into());
+                        }
+                        "back".into()
+                    }
+                },
+            },
+            "ds" => tx.take().map(|_| "-".to_string()).unwrap_or_else(|| ".".into()),
+            "dr" => rx.take().map(|_| "-".to_string()).unwrap_or_else(|| ".".into()),
+            "try" => match &rx {
+                None => ".".to_string(),
+                Some(r) => {
+                    let v = r.try_receive();
+                    if let Ok(x) = v {
+                        got.push(x);
+                    }
+                    show_try(&v)
+                }
+            },
+            "pa" | "pb" => match rx.as_mut() {
+                None => ".".to_string(),
+                Some(r) => {
+                    let wk = &wakers[if *op == "pa" { 0 } else { 1 }];
+                    let mut cx = Context::from_waker(wk);
+                    match std::panic::catch_unwind(std::panic::AssertUnwindSafe(|| Pin::new(r).poll(&mut cx))) {
+                        Ok(Poll::Pending) => "pend".into(),
+                        Ok(Poll::Ready(v)) => {
+                            got.push(v);
+                            format!("rdy{v}")
+                        }
+                        Err(_) => "panic".into(),
+                    }
+                }
+            },
+            _ => return ("bad-case".into(), "-".into()),
+        };
+        toks.push(tok);
+    }
+    let woken: Vec<usize> = counters.iter().map(|c| c.0.load(Ordering::SeqCst)).collect();
+    let held: Vec<usize> = counters.iter().map(|c| Arc::strong_count(c) - 2).collect();
+    // the property on this run: at most one delivery, of the value sent; at most one wake-up, only after a send
+    if got.len() > 1 || got.iter().any(|v| *v != 7) || (!got.is_empty() && !sent) {
+        fails.push(format!("delivered:{got:?}"));
+    }
+    if woken[0] + woken[1] > 1 || (woken[0] + woken[1] == 1 && !sent) {
+        fails.push(format!("woken:{woken:?}"));
+    }
+    drop(rx);
+    drop(tx);
+    if counters.iter().any(|c| Arc::strong_count(c) != 2) {
+        fails.push("waker-leaked".into());
+    }
+    (
+        format!("{} | woken={},{} held={},{}", toks.join(" "), woken[0], woken[1], held[0], held[1]),
+        if fails.is_empty() { "ok".into() } else { format!("FAIL:{}", fails.join(";")) },
+    )
 }
 
 /// The `x …` cases: what the `Weak` references do once the executor is gone, and `spawn_pinned`.
@@ -592,7 +1047,8 @@ fn run_extra(name: &str) -> (String, String) {
                 let mut w = world.borrow_mut();
                 let before = w.wake_count();
                 let tid = w.new_task();
-                let task = ScriptTask { tid, w: Rc::clone(&world) };
+                let drops = Rc::clone(&w.drops);
+                let task = ScriptTask::new(tid, &world, &drops);
                 match i {
                     0 => unsafe { exec.spawn_pinned(Box::pin(async move { task.await; })) },
                     1 => {
@@ -636,6 +1092,37 @@ fn run_line(line: &str) {
         let mut out = (String::new(), String::new());
         let o = guarded(|| {
             out = run_extra(name.trim());
+            out.0.clone()
+        });
+        if o.starts_with("PANIC") {
+            emit(line, &o, &format!("FAIL:{o}"));
+        } else {
+            emit(line, &out.0, &out.1);
+        }
+        return;
+    }
+    if let Some(rest) = line.strip_prefix("f ").or(if line == "f" { Some("") } else { None }) {
+        let ops: Vec<&str> = rest.split_whitespace().collect();
+        let mut out = (String::new(), String::new());
+        let o = guarded(|| {
+            out = run_forwarder(&ops);
+            out.0.clone()
+        });
+        if o.starts_with("PANIC") {
+            emit(line, &o, &format!("FAIL:{o}"));
+        } else {
+            emit(line, &out.0, &out.1);
+        }
+        return;
+    }
+    if let Some(rest) = line.strip_prefix("v ") {
+        let Some((case, ops)) = parse_ops_case(rest) else {
+            emit(line, "bad-case", "-");
+            return;
+        };
+        let mut out = (String::new(), String::new());
+        let o = guarded(|| {
+            out = run_ops(&case, &ops);
             out.0.clone()
         });
         if o.starts_with("PANIC") {
@@ -801,7 +1288,7 @@ fn main() {
             (4, 4, &a1, 400_009),
         ]
     } else {
-        vec![(1, 4, &a2, 1), (2, 3, &a1, 1), (3, 3, &a1, 1), (4, 4, &a1, 10_000_019)]
+        vec![(1, 4, &a2, 1), (2, 3, &a1, 1), (3, 3, &a1, 2), (4, 4, &a1, 10_000_019)]
     };
     for (n, len, alpha, stride) in plan {
         enumerate(n, len, alpha, stride, &mut emit_case);
@@ -822,5 +1309,87 @@ fn main() {
     }
     if counting {
         eprintln!("random: {n} cases");
+    }
+
+    // ---- `f`: the forwarder alone, every sequence of its six operations up to a length
+    let lines = std::cell::Cell::new(0usize);
+    let emit_line = |l: &str| {
+        lines.set(lines.get() + 1);
+        if !counting && lines.get() % sn == si {
+            run_line(l);
+        }
+    };
+    let fops = ["send", "ds", "dr", "try", "pa", "pb"];
+    let flen = if o.thorough() { 7 } else { 6 };
+    let mut layer: Vec<String> = vec!["f".to_string()];
+    emit_line("f");
+    for _ in 0..flen {
+        let mut next = vec![];
+        for l in &layer {
+            for op in fops {
+                let c = format!("{l} {op}");
+                emit_line(&c);
+                next.push(c);
+            }
+        }
+        layer = next;
+    }
+    if counting {
+        eprintln!("forwarder sequences (6 ops, length <= {flen}): {} cases", lines.get());
+    }
+    lines.set(0);
+
+    // ---- `v`: every sequence of outside operations up to a length on a few systems, then random ones
+    let systems = ["d 1 : W0 W0", "s 2 : W0 Y W0 / W0", "d 1 : P J / W0 Y", "d 2 : W0 S0 / Y W0 / W0"];
+    let vops = ["s", "u", "w0.0", "r0.0", "c0.0", "d0.0", "w0.1", "r0.1", "S0", "X", "p"];
+    let vlen = if o.thorough() { 5 } else { 4 };
+    for sys in systems {
+        let mut layer: Vec<String> = vec![format!("v {sys} ;")];
+        for _ in 0..vlen {
+            let mut next = vec![];
+            for l in &layer {
+                for op in vops {
+                    let c = format!("{l} {op}");
+                    emit_line(&c);
+                    next.push(c);
+                }
+            }
+            layer = next;
+        }
+    }
+    if counting {
+        eprintln!("outside-operation sequences ({} systems, 11 ops, length <= {vlen}): {} cases", systems.len(), lines.get());
+    }
+    let mut rng = Rng::new(o.seed ^ 0xC15_0B5);
+    let n = if o.thorough() { 300_000 } else { 30_000 };
+    for k in 0..n {
+        let mut r = rng.fork();
+        if counting || k % sn != si {
+            continue;
+        }
+        let c = random_case(&mut r, false);
+        let nops = 3 + r.below(22);
+        let ops: Vec<String> = (0..nops)
+            .map(|_| {
+                let k = r.below(3);
+                let i = r.below(3);
+                show_op(match r.below(30) {
+                    0..=8 => Op::Step,
+                    9..=10 => Op::Rus,
+                    11..=13 => Op::Wake(k, i),
+                    14..=17 => Op::ByRef(k, i),
+                    18..=20 => Op::Clone(k, i),
+                    21..=22 => Op::Drop(k, i),
+                    23..=25 => Op::Signal(k),
+                    26 => Op::DropExec,
+                    27 => Op::Try(r.below(4)),
+                    _ => Op::Spawn,
+                })
+            })
+            .collect();
+        run_line(&format!("v {} ; {}", show_case(&c), ops.join(" ")));
+    }
+    if counting {
+        eprintln!("random outside-operation cases: {n}");
     }
 }
